@@ -321,7 +321,8 @@ where
                         config.failure_persistence = None;
                         config.rng_seed = RngSeed::Fixed(seed);
                         config.max_shrink_iters = 4000;
-                        config.max_shrink_time = 120_000;
+                        // shrinking budget (ms): a budget hit only means a less minimal replay file
+                        config.max_shrink_time = std::env::var("VERIF_MAX_SHRINK_MS").ok().and_then(|v| v.parse().ok()).unwrap_or(120_000);
                         config.max_global_rejects = 1_000_000;
                         config.max_local_rejects = 1_000_000;
                         config.verbose = 0;
@@ -451,6 +452,17 @@ pub fn write_replay(prop: &str, found: &Found) -> PathBuf {
     };
     let h = hash_json(&rf) % 0xffff_ffff;
     let path = dir.join(format!("violation_{}_{:08x}.json", found.leg, h));
+    let _ = std::fs::write(&path, serde_json::to_string_pretty(&rf).unwrap());
+    path
+}
+
+/// writes a found violation under /verif/<sub>/<prop>/<prefix>_<leg>_<hash>.json
+pub fn write_replay_to(sub: &str, prop: &str, found: &Found, prefix: &str) -> PathBuf {
+    let dir = Path::new(VERIF_ROOT).join(sub).join(prop);
+    let _ = std::fs::create_dir_all(&dir);
+    let rf = ReplayFile { property: prop.to_string(), leg: found.leg.clone(), key: found.fail.key.clone(), detail: found.fail.detail.clone(), spec: found.spec.clone() };
+    let h = hash_json(&rf) % 0xffff_ffff;
+    let path = dir.join(format!("{prefix}_{}_{:08x}.json", found.leg, h));
     let _ = std::fs::write(&path, serde_json::to_string_pretty(&rf).unwrap());
     path
 }
